@@ -18,7 +18,7 @@ META = {
              "member of the valid set (344 3D + 88 2D settings, each in its spellings) must be accepted; non-trivial = "
              "tuple accepted by define_blockshape; distinct = the tuple"),
     "assumptions": [
-        "outcome classes: refused (exception and output absent or empty) / faithful (validator passes, read-back == libzfp image); anything else is a violation",
+        "outcome classes: refused (exception and no output file) / faithful (validator passes, read-back == libzfp image); anything else is a violation",
         "2D settings below 1 bit are a known finding (K03): refused, although the property lists them as valid",
     ],
 }
@@ -98,8 +98,9 @@ def try_setting(case, ctx, d):
             src = gen.make_values((5, 6, 9), "gauss", 6)
             conv.numpy_convert(src, out, bpv, bs)
     except Exception as e:
-        if os.path.exists(out) and os.path.getsize(out) > 0:
-            raise Violation("refusal-left-output", f"bpv={bpv!r} blockshape={bs}: {type(e).__name__}: {e}; {os.path.getsize(out)} bytes written")
+        if os.path.exists(out):
+            # "raises before producing an output": not even an empty file (it would replace whatever was there)
+            raise Violation("refusal-left-output", f"bpv={bpv!r} blockshape={bs}: {type(e).__name__}: {e}; output file of {os.path.getsize(out)} bytes exists")
         if resolved is not None and library_exception(e) is None and route != "cli":
             raise
         return "refused", resolved
